@@ -26,7 +26,7 @@ func init() {
 		Assumptions: []string{
 			"Roller passes a nil Config, so trust comes from the process-wide system pool: the worker process runs with SSL_CERT_FILE pointing at the harness CA",
 			"a fingerprint is identified on the server by its de-GREASEd cipher-suite list; configured parrots are chosen with pairwise different lists; any other list is attributed to HelloRandomized",
-			"identity of a ClientHelloID includes its seed: the seeded working HelloRandomized and the configured unseeded HelloRandomized are different IDs",
+			"identity of a ClientHelloID includes its seed: the seeded working HelloRandomized and the configured unseeded HelloRandomized are different IDs; a working randomized ID must reproduce the fingerprint that succeeded (same cipher-suite list on the next Dial's first attempt)",
 		},
 		Real: []string{"utls Roller, UConn (client) from /repo", "utls tls.Server as listener peer", "Go race detector"},
 		Stub: []string{"net.DialTimeout -> simnet.DialTimeout (listener registry)", "transport, clock, crypto/rand"},
@@ -67,6 +67,8 @@ type rollCall struct {
 	retAt      time.Duration
 	dialsBefore int
 	after      int64
+	accSig     string // cipher-suite signature of the attempt the server accepted
+	firstSig   string // ... of the call's first attempt
 }
 
 func runC29(c *Ctx) {
@@ -348,6 +350,27 @@ func runC29(c *Ctx) {
 	for _, cs := range calls {
 		allCalls = append(allCalls, cs...)
 	}
+	// first pass: the fingerprint (cipher-suite signature) of each call's first and accepted attempt
+	for ti, cs := range calls {
+		for _, rc := range cs {
+			first := true
+			for _, d := range dialsByTask[fmt.Sprintf("dial%d", ti)] {
+				if d.Stamp > rc.invoke && d.Stamp < rc.ret && d.Err == "" {
+					if a := attOfLink[d.Link]; a != nil {
+						if first {
+							rc.firstSig = a.sig
+						}
+						if a.accepted && rc.accSig == "" {
+							rc.accSig = a.sig
+						}
+					}
+				}
+				if d.Stamp > rc.invoke && d.Stamp < rc.ret {
+					first = false
+				}
+			}
+		}
+	}
 	// successes in completion order, for the concurrent working-ID rule
 	for ti, cs := range calls {
 		tname := fmt.Sprintf("dial%d", ti)
@@ -416,6 +439,22 @@ func runC29(c *Ctx) {
 				}
 				if rc.startWork != nil && !concurrent && !cands[names[0]] {
 					c.Violate("working-id-not-tried-first", "first attempt %s, working ID was %s: %s", names[0], idStr(rc.startWork), detail)
+				}
+				// a working randomized ID stands for one concrete fingerprint (its seed): the hello tried
+				// first must be the one that worked, not merely another randomized hello
+				if rc.startWork != nil && !concurrent && names[0] == "randomized" && strings.HasPrefix(rc.startWork.Client, "Randomized") {
+					var src *rollCall
+					for _, oc := range allCalls {
+						if oc != rc && oc.conn != nil && oc.ret < rc.invoke && sameID(oc.connID, *rc.startWork) && (src == nil || oc.ret > src.ret) {
+							src = oc
+						}
+					}
+					if src != nil && src.accSig != "" && rc.firstSig != "" {
+						c.Probe("working-randomized-id-reused")
+						if rc.firstSig != src.accSig {
+							c.Violate("working-randomized-fingerprint-not-reused", "the working ID is the randomized fingerprint that succeeded before (cipher suites %s) but the first attempt offered %s (seed recorded: %v): %s", src.accSig, rc.firstSig, rc.startWork.Seed != nil, detail)
+						}
+					}
 				}
 				if rc.startWork != nil && concurrent && !cands[names[0]] {
 					// with a concurrent success the working ID may legitimately have been nil->X or X->Y
